@@ -19,9 +19,15 @@ use crate::proto;
 use cfg_if::cfg_if;
 use lazy_static::lazy_static;
 
+#[cfg(not(feature = "verif"))]
+type CollectorMap = HashMap<u64, Box<dyn Collector>>;
+// verification builds: same map, with an iteration order the harness can pin
+#[cfg(feature = "verif")]
+type CollectorMap = HashMap<u64, Box<dyn Collector>, crate::verif::MapState>;
+
 #[derive(Default)]
 struct RegistryCore {
-    pub collectors_by_id: HashMap<u64, Box<dyn Collector>>,
+    pub collectors_by_id: CollectorMap,
     pub dim_hashes_by_name: HashMap<String, u64>,
     pub desc_ids: HashSet<u64>,
     /// Optional common labels for all registered collectors.
